@@ -13,4 +13,4 @@ for P in "$@"; do
   echo "== $(basename $D) vs $P: exit=$code"
   echo "$out" | grep -E "^VIOLATION|sub-check|HARNESS|VACUOUS|INCONCLUSIVE" | cut -c1-260 | head -8
 done
-rm -rf replays
+# replays/ of seed runs are left in place (gitignored); remove by hand
